@@ -50,8 +50,8 @@ theorem remove_orthogonal_to_modes (B : Matrix P M R) (h : IsUnit (Bᵀ * B).det
 
 /-- the fitted coefficients are the least-squares solution: no coefficient vector leaves a smaller residual
 (sum of squares over the samples) than `zernike_remove` does -/
-theorem fit_is_least_squares [Field R] [LinearOrder R] [IsStrictOrderedRing R] (B : Matrix P M R) (h : IsUnit (Bᵀ * B).det)
-    (opd : P → R) (c : M → R) :
+theorem fit_is_least_squares {F : Type} [Field F] [LinearOrder F] [IsStrictOrderedRing F] (B : Matrix P M F) (h : IsUnit (Bᵀ * B).det)
+    (opd : P → F) (c : M → F) :
     zremove B opd ⬝ᵥ zremove B opd ≤ (opd - B *ᵥ c) ⬝ᵥ (opd - B *ᵥ c) := by
   have e : opd - B *ᵥ c = zremove B opd + B *ᵥ (zfit B opd - c) := by
     unfold zremove zcompose; rw [Matrix.mulVec_sub]; abel
